@@ -30,6 +30,9 @@
   their update operations (those invariants belong to the properties about those operations).
 -/
 import PyProb.Lemmas.Formats
+import PyProb.Lemmas.WFOps
+import PyProb.Lemmas.CuckooAcct
+import PyProb.Properties.C15
 
 namespace PyProb.C05
 open PyProb
@@ -315,6 +318,22 @@ theorem C05_cbf_new_wf (est fpr32 k m : Nat) (he : est < 2 ^ 64) (hf : fpr32 < 2
   simp only [CBF.new, List.mem_replicate] at hx
   omega
 
+/-- `add_alt` (any hash list, any `num_els`) keeps the array shape and the cell range -/
+theorem C05_cbf_add_wf (c : CBF) (hs : List Nat) (n : Int)
+    (hlen : c.cells.length = c.m) (hcells : ∀ x ∈ c.cells, 0 ≤ x ∧ x ≤ 4294967295) :
+    (c.addAlt hs n).1.cells.length = (c.addAlt hs n).1.m ∧
+      ∀ x ∈ (c.addAlt hs n).1.cells, 0 ≤ x ∧ x ≤ 4294967295 := by
+  obtain ⟨h1, h2, h3⟩ := cbf_addAlt_ok c hs n hcells
+  exact ⟨by rw [h2, h3, hlen], h1⟩
+
+/-- `remove_alt` with a non-negative `num_els` keeps the array shape and the cell range -/
+theorem C05_cbf_remove_wf (c : CBF) (hs : List Nat) (n : Int) (hn : 0 ≤ n)
+    (hlen : c.cells.length = c.m) (hcells : ∀ x ∈ c.cells, 0 ≤ x ∧ x ≤ 4294967295) :
+    (c.removeAlt hs n).1.cells.length = (c.removeAlt hs n).1.m ∧
+      ∀ x ∈ (c.removeAlt hs n).1.cells, 0 ≤ x ∧ x ≤ 4294967295 := by
+  obtain ⟨h1, h2, h3⟩ := cbf_removeAlt_ok c hs n hn hcells
+  exact ⟨by rw [h2, h3, hlen], h1⟩
+
 /-! ## expanding and rotating Bloom filters -/
 
 private theorem go_ok (blooms : List Bloom) (h : ∀ b ∈ blooms, 0 ≤ b.count ∧ b.count < 2 ^ 64) :
@@ -399,6 +418,45 @@ theorem C05_expanding_push_subs (e : Expanding) (h : SubsOK e) : SubsOK e.push :
   · exact h b hb
   · rw [hb]; simp [Expanding.fresh, Bloom.new, Expanding.push]
 
+/-- `add_alt` (growth included) keeps the sub-filters uniform and the list non-empty -/
+theorem C05_expanding_add_wf (e : Expanding) (hs : List Nat) (force : Bool)
+    (hne : e.blooms ≠ []) (hsubs : SubsOK e) :
+    (e.addAlt hs force).1.blooms ≠ [] ∧ SubsOK (e.addAlt hs force).1 :=
+  let h := expanding_addAlt_ok e hs force hsubs hne
+  ⟨h.2, h.1⟩
+
+/-- rotating filter: `add_alt` (rotation included), `push` and `pop` keep the sub-filters uniform,
+    the queue non-empty and the queue limit -/
+theorem C05_rotating_add_wf (r : Rotating) (hs : List Nat) (force : Bool)
+    (hne : r.blooms ≠ []) (hsubs : SubsOK r.toExpanding) :
+    (r.addAlt hs force).1.blooms ≠ [] ∧ SubsOK (r.addAlt hs force).1.toExpanding ∧ (r.addAlt hs force).1.q = r.q :=
+  let h := rotating_addAlt_ok r hs force hsubs hne
+  ⟨h.2.1, h.1, h.2.2⟩
+
+theorem C05_rotating_push_wf (r : Rotating) (hne : r.blooms ≠ []) (hsubs : SubsOK r.toExpanding) :
+    r.push.blooms ≠ [] ∧ SubsOK r.push.toExpanding ∧ r.push.q = r.q := by
+  obtain ⟨h1, h2, g1, g2, g3, g4, g5⟩ := rotate_ok r true hsubs hne
+  refine ⟨h2, ?_, g5⟩
+  intro b hb
+  have := h1 b hb
+  unfold Rotating.push
+  rw [g1, g2, g3, g4]
+  exact this
+
+theorem C05_rotating_pop_wf (r r' : Rotating) (hsubs : SubsOK r.toExpanding) (hne : r.blooms ≠ [])
+    (hp : r.pop = .ok r') :
+    r'.blooms ≠ [] ∧ SubsOK r'.toExpanding ∧ r'.q = r.q := by
+  unfold Rotating.pop at hp
+  split at hp
+  · cases hp
+  · rename_i hlen
+    injection hp with hp; subst hp
+    refine ⟨?_, fun b hb => hsubs b (List.mem_of_mem_drop hb), rfl⟩
+    simp only [ne_eq, List.drop_eq_nil_iff, Nat.not_le]
+    have : r.blooms.length ≠ 1 := by simpa using hlen
+    have : 0 < r.blooms.length := List.length_pos_iff.mpr hne
+    omega
+
 /-! ## count-min sketch family -/
 
 theorem C05_cms_export_ok (c : CMS) (wf : CMSWF c) : ∃ bytes, c.exportBytes = .ok bytes := by
@@ -445,6 +503,21 @@ theorem C05_cms_new_wf (w d : Nat) (mode : Mode) (hw : w < 2 ^ 32) (hd : d < 2 ^
   intro x hx
   simp only [CMS.new, List.mem_replicate] at hx
   omega
+
+/-- `add_alt` / `remove_alt` (any hash list, any `num_els`) keep the array shape and the int32 range -/
+theorem C05_cms_add_wf (c : CMS) (hs : List Nat) (n : Int)
+    (hlen : c.bins.length = c.w * c.d) (hbins : ∀ x ∈ c.bins, -2147483648 ≤ x ∧ x ≤ 2147483647) :
+    (c.addAlt hs n).1.bins.length = (c.addAlt hs n).1.w * (c.addAlt hs n).1.d ∧
+      ∀ x ∈ (c.addAlt hs n).1.bins, -2147483648 ≤ x ∧ x ≤ 2147483647 := by
+  obtain ⟨h1, h2, h3, h4⟩ := cms_addAlt_ok c hs n hbins
+  exact ⟨by rw [h2, h3, h4, hlen], h1⟩
+
+theorem C05_cms_remove_wf (c : CMS) (hs : List Nat) (n : Int)
+    (hlen : c.bins.length = c.w * c.d) (hbins : ∀ x ∈ c.bins, -2147483648 ≤ x ∧ x ≤ 2147483647) :
+    (c.removeAlt hs n).1.bins.length = (c.removeAlt hs n).1.w * (c.removeAlt hs n).1.d ∧
+      ∀ x ∈ (c.removeAlt hs n).1.bins, -2147483648 ≤ x ∧ x ≤ 2147483647 := by
+  obtain ⟨h1, h2, h3, h4⟩ := cms_removeAlt_ok c hs n hbins
+  exact ⟨by rw [h2, h3, h4, hlen], h1⟩
 
 /-! ## cuckoo and counting cuckoo filters -/
 
@@ -571,6 +644,85 @@ theorem C05_cuckoo_new_wf (counting : Bool) (cap b maxSwaps rate : Nat) (auto : 
     rw [hbkt.2]; simp
   · simp [Cuckoo.new, binCount]
   · simp [Cuckoo.new, binNumber]
+
+/-! ### reachable cuckoo states satisfy the well-formedness of the round trip -/
+
+section Reachable
+open PyProb.Cuckoo
+
+/-- the table invariant of C15 together with the counters' bookkeeping gives `CuckooWF` -/
+theorem C05_cuckoo_wf_of_inv (G : Nat → Nat) (c : Cuckoo) (hinv : C15.Inv G c) (ha : Acct c) : CuckooWF c := by
+  obtain ⟨hlen, _, hb, _, hsize, _, _, _, hplain⟩ := hinv
+  refine ⟨⟨hlen, hb, ?_⟩, ?_, ?_⟩
+  · intro bkt hbkt
+    refine ⟨hsize bkt hbkt, fun bin hbin => ⟨?_, fun hc => hplain hc bin (List.mem_flatten.mpr ⟨bkt, hbkt, hbin⟩)⟩⟩
+    have hst : stored c bin := List.mem_flatten.mpr ⟨bkt, hbkt, hbin⟩
+    by_cases h0 : bin.1 = 0
+    · have : 0 < tsum (isFp 0) c := (tsum_pos_iff _ _).mpr ⟨bin, hst, by simp [isFp, h0]⟩
+      have := ha.fpPos
+      omega
+    · omega
+  · rw [ha.count]; rfl
+  · rw [ha.unique]
+    unfold uInc binNumber
+    have : tsum (fun _ => 1) c = (c.buckets.map List.length).sum := by
+      unfold tsum; congr 1
+      exact List.map_congr_left (fun bkt _ => bsum_one_length bkt)
+    rw [this]
+    split <;> simp
+
+theorem C05_cuckoo_acct_init (counting : Bool) (cap b maxSwaps rate : Nat) (auto : Bool) (fpBits : Nat) :
+    Acct (Cuckoo.new counting cap b maxSwaps rate auto fpBits) := acct_new _ _ _ _ _ _ _
+
+/-- every public operation keeps the bookkeeping, whether it returns normally or raises -/
+theorem C05_cuckoo_acct_step (G : Nat → Nat) (c : Cuckoo) (op : C15.Op × List Nat)
+    (hinv : C15.Inv G c) (ha : Acct c) : Acct (C15.step G c op) := by
+  have hw := (C15.inv_iff_wf G c).mp hinv
+  obtain ⟨op, oracle⟩ := op
+  cases op with
+  | add h => exact acct_add h oracle hw ha
+  | remove h => exact acct_remove h hw ha
+  | expand => exact acct_expand oracle hw ha
+
+theorem C05_cuckoo_acct_run (G : Nat → Nat) (c : Cuckoo) (ops : List (C15.Op × List Nat))
+    (hinv : C15.Inv G c) (ha : Acct c) : Acct (C15.run G c ops) := by
+  unfold C15.run
+  induction ops generalizing c with
+  | nil => exact ha
+  | cons op ops ih => exact ih (C15.step G c op) (C15.C15_step G c op hinv) (C05_cuckoo_acct_step G c op hinv ha)
+
+/-- every state reachable from a fresh filter by any history of add / remove / expand (any second
+    hash `G`, any oracles) that can be exported at all is reproduced exactly by loading its export -/
+theorem C05_cuckoo_roundtrip_reachable (G : Nat → Nat) (counting : Bool) (cap b maxSwaps rate : Nat)
+    (auto : Bool) (fpBits : Nat) (hcap : 0 < cap) (hb : 0 < b) (hrate : 0 < rate)
+    (ops : List (C15.Op × List Nat)) (bytes : Bytes)
+    (h : (C15.run G (Cuckoo.new counting cap b maxSwaps rate auto fpBits) ops).exportBytes = .ok bytes) :
+    Cuckoo.load (C15.run G (Cuckoo.new counting cap b maxSwaps rate auto fpBits) ops) bytes =
+      .ok (C15.run G (Cuckoo.new counting cap b maxSwaps rate auto fpBits) ops) := by
+  have hinv0 := C15.C15_init G counting cap b maxSwaps rate auto fpBits hcap hb hrate
+  have hinv := C15.C15_run G _ ops hinv0
+  have ha := C05_cuckoo_acct_run G _ ops hinv0 (C05_cuckoo_acct_init counting cap b maxSwaps rate auto fpBits)
+  exact C05_cuckoo_roundtrip_self _ bytes (C05_cuckoo_wf_of_inv G _ hinv ha) h
+
+/-- the clause of C15 about loaded filters: what `load` builds from the export of a filter
+    satisfying the table invariant satisfies the invariant (and the bookkeeping) again -/
+theorem C05_cuckoo_loaded_inv (G : Nat → Nat) (template c c' : Cuckoo) (bytes : Bytes)
+    (hinv : C15.Inv G c) (ha : Acct c) (ht : template.counting = c.counting) (hr : 0 < template.rate)
+    (h : c.exportBytes = .ok bytes) (hl : Cuckoo.load template bytes = .ok c') :
+    C15.Inv G c' ∧ Acct c' := by
+  have wf := C05_cuckoo_wf_of_inv G c hinv ha
+  rw [C05_cuckoo_roundtrip template c bytes wf ht h] at hl
+  injection hl with hl
+  subst hl
+  obtain ⟨hlen, hcap, hb, _, hsize, hpos, hnd, hcnt, hplain⟩ := hinv
+  refine ⟨⟨hlen, hcap, hb, hr, hsize, hpos, hnd, hcnt, ?_⟩, ⟨ha.fpPos, ha.count, ?_⟩⟩
+  · intro hc; exact hplain (ht ▸ hc)
+  · have hu := ha.unique
+    unfold uInc at hu ⊢
+    simp only [ht]
+    exact hu
+
+end Reachable
 
 /-! ## non-vacuity: concrete states, exported and reloaded (tests) -/
 
